@@ -270,6 +270,7 @@ func checkMain(args []string) int {
 		log  string
 	}
 	var jobs []job
+	altWorkers := 0
 	mk := func(w, n int, audit bool, gomax int) job {
 		name := fmt.Sprintf("w%02d", w)
 		if audit {
@@ -281,7 +282,12 @@ func checkMain(args []string) int {
 		if audit {
 			a = append(a, "-audit")
 		}
-		c := exec.Command(self, a...)
+		bin := self
+		if alt := os.Getenv("SIMKV_ALT_BIN"); alt != "" && p.Race && w%2 == 1 {
+			bin = alt
+			altWorkers++
+		}
+		c := exec.Command(bin, a...)
 		rl := filepath.Join(outDir, name+".race")
 		c.Env = append(os.Environ(), "GOMAXPROCS="+strconv.Itoa(gomax), "SIMKV_RACE_LOG="+rl, "GORACE=halt_on_error=0 exitcode=0 log_path="+rl)
 		lf := filepath.Join(outDir, name+".log")
@@ -413,6 +419,10 @@ func checkMain(args []string) int {
 	}
 
 	sort.SliceStable(total.Found, func(i, j int) bool { return total.Found[i].Index < total.Found[j].Index })
+	if altWorkers > 0 {
+		total.Counters["workers_on_second_go_runtime(go1.26.8)"] = altWorkers
+	}
+	total.Counters["workers_on_default_go_runtime("+runtime.Version()+")"] = len(jobs) - altWorkers
 	rc := report(p, *tier, seed, total, compared, identical, time.Since(start), *noEvidence, nw)
 	return rc
 }
